@@ -497,3 +497,81 @@ pub fn eq_rangefrom_b(seed: u64, xs: &mut [u64]) {
         *x = seed.wrapping_add(i);
     }
 }
+
+// ---- round 7: hand-advanced iterators and shrinking slices
+pub fn eq_cursor_a(n: usize, xs: &[f64], out: &mut [f64]) {
+    for k in 0..n {
+        out[k] = xs[k] * 2.0;
+    }
+}
+pub fn eq_cursor_b(n: usize, xs: &[f64], out: &mut [f64]) {
+    let mut it = xs.iter();
+    for k in 0..n {
+        let x = it.next().unwrap();
+        out[k] = x * 2.0;
+    }
+}
+// advancing twice per iteration reads every other element
+pub fn ne_cursor_a(n: usize, xs: &[f64], out: &mut [f64]) {
+    eq_cursor_b(n, xs, out)
+}
+pub fn ne_cursor_b(n: usize, xs: &[f64], out: &mut [f64]) {
+    let mut it = xs.iter();
+    for k in 0..n {
+        let _skip = it.next();
+        let x = it.next().unwrap();
+        out[k] = x * 2.0;
+    }
+}
+
+pub fn eq_splitat_a(n: usize, d: usize, flat: &[f64]) -> Vec<f64> {
+    let mut out = Vec::new();
+    for r in 0..n {
+        out.push(flat[r * d] + flat[r * d + 1]);
+    }
+    out
+}
+pub fn eq_splitat_b(n: usize, d: usize, flat: &[f64]) -> Vec<f64> {
+    let mut out = Vec::new();
+    let mut rest = flat;
+    for _ in 0..n {
+        let (row, tail) = rest.split_at(d);
+        out.push(row[0] + row[1]);
+        rest = tail;
+    }
+    out
+}
+// forgetting to move on reads the first row every time
+pub fn ne_splitat_a(n: usize, d: usize, flat: &[f64]) -> Vec<f64> {
+    eq_splitat_b(n, d, flat)
+}
+pub fn ne_splitat_b(n: usize, d: usize, flat: &[f64]) -> Vec<f64> {
+    let mut out = Vec::new();
+    let rest = flat;
+    for _ in 0..n {
+        let (row, _tail) = rest.split_at(d);
+        out.push(row[0] + row[1]);
+    }
+    out
+}
+
+// a row buffer cleared and refilled vs a fresh vector per row
+pub fn eq_clear_a(n: usize, xs: &[f64]) -> Vec<f64> {
+    let mut out = Vec::new();
+    for i in 0..n {
+        let row = vec![xs[i], xs[i] + 1.0];
+        out.push(row[0] * row[1]);
+    }
+    out
+}
+pub fn eq_clear_b(n: usize, xs: &[f64]) -> Vec<f64> {
+    let mut out = Vec::new();
+    let mut row: Vec<f64> = Vec::new();
+    for i in 0..n {
+        row.clear();
+        row.push(xs[i]);
+        row.push(xs[i] + 1.0);
+        out.push(row[0] * row[1]);
+    }
+    out
+}
